@@ -91,6 +91,23 @@ void harness(void)
 		V_COVER("head of a list with parent and successor", !oprev && opar && onext);
 		V_COVER("last of a list", oprev && !onext);
 	}
+#elif defined(UNIT_RELINK)
+	{
+		/* mpt_gnode_relink after "manual concatenation" (only next / children links set): R -> {n1, n2}, n1 -> {n3, n4},
+		 * n3 -> {n5}; which of n2, n4, n5 exist is symbolic.  Afterwards every node names its parent and predecessor.
+		 * Split by depth (known finding: the children of a first child are never visited). */
+		node_t *R = &P[0], *n1 = &P[1], *n2 = &P[2], *n3 = &P[3], *n4 = &P[4], *n5 = &P[5];
+		for (i = 0; i < NP; i++) { P[i].next = P[i].prev = P[i].parent = P[i].children = 0; }
+		R->children = n1; if (in_has_next) n1->next = n2;
+		n1->children = n3; if (in_has_prev) n3->next = n4;
+		if (in_has_par) n3->children = n5;
+		mpt_gnode_relink(R);
+		V_CHECK("relink: first level names the root, siblings are chained backwards", n1->parent == R && !n1->prev && IMP(in_has_next, n2->parent == R && n2->prev == n1));
+		V_CHECK("relink: second level", n3->parent == n1 && !n3->prev && IMP(in_has_prev, n4->parent == n1 && n4->prev == n3));
+		V_CHECK("relink: third level (children of a first child)", IMP(in_has_par, n5->parent == n3 && !n5->prev));
+		V_CHECK("relink: forward and child links are the reference and stay", R->children == n1 && n1->children == n3 && n1->next == (in_has_next ? n2 : 0) && n3->next == (in_has_prev ? n4 : 0) && !R->parent && !R->prev && !R->next);
+		V_COVER("three levels", in_has_par && in_has_next && in_has_prev);
+	}
 #elif defined(UNIT_INSERT0)
 	{
 		/* insert as the only child */
